@@ -13,7 +13,13 @@ run on generated instances; the recorded pack/unpack/repack events are validated
 A class body holds more than wire fields (PayloadDef.tla: AddConst): constants (bare or typing.ClassVar-annotated),
 helper methods, the message id (bare / ClassVar / in the class header).  TLC places them before, between and after the
 fields, in the base class and (overriding) in the subclass; the definition keeps its meaning (invariant ConstsOffWire)
-and every member must show the value TLC computed (cvals) on the class, on a constructed and on a decoded instance."""
+and every member must show the value TLC computed (cvals) on the class, on a constructed and on a decoded instance.
+
+The dataclass form derives its formats from type annotations (PayloadDef.tla: Ann / TypeMap / Annotate): every field of
+a definition carries the annotation TLC chose for it - native type, format type variable or payload class, alone or as
+the element of list[T] / tuple[T, ...] / typing.List[T] / typing.Tuple[T, ...], as an object or as a string - and the
+format list the real class holds after its first use must be the one TLC computed (dfmt, invariant AnnotationsMean), next
+to bytes and type-exact decoded values (a list of bool is not a list of int)."""
 from __future__ import annotations
 
 import concurrent.futures
@@ -24,6 +30,7 @@ import os
 import random
 import re
 import shutil
+import sys
 import typing
 
 from ..common import Ctx, setup_repo_path
@@ -33,8 +40,14 @@ from .c02 import World, record, run_trace_controls, settle_trace_controls, valid
 
 PID = "C20"
 NESTED = "messaging.anonymization.payload.IntroductionInfo"
-NATURAL = {"?": bool, "q": int, "varlenH": bytes, "varlenHutf8": str}
-STATE_KEYS = ("def", "split", "style", "args", "fields", "pbytes", "pdec", "consts", "cvals", "bcvals")
+STATE_KEYS = ("def", "split", "style", "args", "fields", "pbytes", "pdec", "consts", "cvals", "bcvals", "dfmt")
+# the annotation language of the dataclass form (PayloadDef.tla: Ann): base types and how a container is written
+NATIVE = {"bool": bool, "int": int, "float": float, "bytes": bytes, "str": str}
+CONTAINER = {"": (lambda t: t, "%s"), "list": (lambda t: list[t], "list[%s]"), "tuple": (lambda t: tuple[t, ...], "tuple[%s, ...]"),
+             "List": (lambda t: typing.List[t], "typing.List[%s]"), "Tuple": (lambda t: typing.Tuple[t, ...], "typing.Tuple[%s, ...]")}
+CANON_ANN = {"?": ("", "bool"), "q": ("", "int"), "d": ("", "float"), "varlenH": ("", "bytes"), "varlenHutf8": ("", "str"),
+             "arrayH-?": ("list", "bool"), "arrayH-q": ("list", "int"), "arrayH-d": ("list", "float"),
+             "payload": ("", "payload"), "payload-list": ("list", "payload")}
 # non-field members of a class body (PayloadDef.tla: ConstKinds): attribute name, annotation, specification value -> python
 MEMBERS = {"int": ("MAX_ITEMS", int, int), "text": ("LABEL", str, lambda v: "".join(map(chr, v))),
            "tuple": ("VERSIONS", typing.Tuple[int, ...], lambda v: tuple(int(x) for x in v)),
@@ -54,7 +67,26 @@ HOOKS = {"?": (lambda v: not v, lambda v: not v),
          "I": (lambda v: 0xFFFFFFFF - v, lambda v: 0xFFFFFFFF - v),
          "20s": (rotl, rotr), "varlenH": (rotl, rotr), "varlenHutf8": (rotl, rotr),
          "bits": (lambda v: 1 - v, lambda v: 1 - v),              # rule on the first bit name only
-         "payload-list": (lambda v: list(reversed(v)), lambda v: list(reversed(v)))}
+         "payload-list": (lambda v: list(reversed(v)), lambda v: list(reversed(v))),
+         "arrayH-?": (lambda v: list(reversed(v)), lambda v: list(reversed(v)))}
+
+
+def canon_ann(k):
+    """PayloadDef.tla: Canon - the annotation customarily written for a field of format k."""
+    c, b = CANON_ANN.get(k, ("", "format"))
+    return {"c": c, "b": b, "f": k if b == "format" else "", "s": False}
+
+
+def publish(name, obj):
+    """bind a name in this module: annotations written as strings are resolved in the module of the class (PEP 563)."""
+    g = sys.modules[__name__].__dict__
+    if g.get(name, obj) is not obj:
+        raise MachineryError("name %s is already taken in %s" % (name, __name__))
+    g[name] = obj
+    return name
+
+
+TYPEVARS = {}       # (type_from_format, format name) -> (module-level identifier, the type variable)
 
 
 class Definition:
@@ -181,6 +213,27 @@ class Definition:
     def _compiled(self):
         return self.vp_compile(type("Compiled%d" % self.uid, (self._parent("compiled", self._root()),), self._namespace()))
 
+    def annotation(self, f):
+        """the annotation of PayloadDef.tla (def[i].ann) as the object / the string a user writes in the class body."""
+        a = f.get("ann") or canon_ann(f["k"])
+        c, b, s = a["c"], a["b"], a["s"]
+        if self.sabotage == "elem-int" and c and b == "bool":
+            b = "int"                         # control: a sequence of bool annotated as a sequence of int
+        if b in NATIVE:
+            obj, name = NATIVE[b], b
+        elif b == "payload":
+            obj, name = self.nested, self.nested.__name__
+        elif b == "format":
+            key = (self.type_from_format, a["f"])
+            if key not in TYPEVARS:
+                TYPEVARS[key] = ("FMT%d" % len(TYPEVARS), self.type_from_format(a["f"]))
+            name, obj = TYPEVARS[key]
+        else:
+            raise MachineryError("annotation %r has no python counterpart" % (a,))
+        if not s:
+            return CONTAINER[c][0](obj)
+        return CONTAINER[c][1] % publish(name, obj)
+
     def _dataclass(self):
         if any(f["k"] == "bits" for f in self.df):
             return None                       # eight names for one format: not expressible as dataclass fields
@@ -203,9 +256,8 @@ class Definition:
         own = list(zip(self.df, self.field_names))[self.split:]                # a derived dataclass lists its own fields only
         for i, (f, names) in enumerate(own, self.split):
             members_at(i)
-            k, n = f["k"], names[0]
-            t = NATURAL.get(k) or (list[int] if k == "arrayH-q" else self.nested if k == "payload" else
-                                   list[self.nested] if k == "payload-list" else self.type_from_format(k))
+            n = names[0]
+            t = self.annotation(f)
             fields.append((n, t, dataclasses.field(default=self.defaults[n])) if n in self.defaults else (n, t))
         members_at(len(self.df))
         root = self.DataClassPayload if self._header_id() is None else self.DataClassPayload[self._header_id()]
@@ -232,6 +284,20 @@ class Definition:
         return [codec.to_norm(t, getattr(obj, n), NESTED) if hasattr(obj, n) else ("MISSING",)
                 for n, t in zip(self.names, self.types)]
 
+    def formats(self, cls):
+        """the format list and names a class holds (nested classes by role), as PayloadDef.tla names them (dfmt)."""
+        out = []
+        for x in getattr(cls, "format_list", ()):
+            if isinstance(x, str):
+                out.append(x)
+            elif isinstance(x, type):
+                out.append("payload" if x is self.nested else ("OTHER", x.__name__))
+            elif isinstance(x, (list, tuple)) and len(x) == 1 and isinstance(x[0], type):
+                out.append("payload-list" if x[0] is self.nested else ("OTHER", x[0].__name__))
+            else:
+                out.append(("OTHER", repr(x)[:40]))
+        return tuple(out), tuple(getattr(cls, "names", ()))
+
     def members(self, cls, inst, dec):
         """what every non-field member shows on the class, on a constructed and on a decoded instance (normal form)."""
         def norm(ck, owner, obj):
@@ -252,8 +318,17 @@ class Definition:
         return tuple(tuple(x for x in triple if x is not None) for triple in seen)
 
 
-def run_form(world, defn, form, st):
-    """construct / pack / unpack one form -> {"construct": attrs | ("raised", ..), "pack": ..., "unpack": ...}"""
+def reunpack(world, defn, cls, own):
+    try:
+        d2, end = world.serializer.unpack_serializable(cls, own)
+        return (canon(defn.attributes(d2)), end, type(d2) is cls)
+    except Exception as e:  # noqa: BLE001
+        return ("raised", type(e).__name__, "%s: %s" % (type(e).__name__, str(e)[:160]))
+
+
+def run_form(world, defn, form, st, own=None):
+    """construct / pack / unpack one form -> {"construct": attrs | ("raised", ..), "pack": ..., "unpack": ...}
+    own: bytes the plain form packed, when they are not those of the reference codec - every form decodes them too."""
     ser = world.serializer
     style, names = st["style"], defn.names
     args = defn.flat(st["args"])
@@ -277,6 +352,7 @@ def run_form(world, defn, form, st):
         out["construct"] = ("raised", type(e).__name__, "%s: %s" % (type(e).__name__, str(e)[:160]))
         inst = None
     if inst is not None:
+        out["formats"] = defn.formats(type(inst))       # what the class holds once it has been used (dfmt)
         try:
             out["pack"] = bytes(ser.pack_serializable(inst))
         except Exception as e:  # noqa: BLE001
@@ -287,6 +363,8 @@ def run_form(world, defn, form, st):
         out["unpack"] = (canon(defn.attributes(dec)), end, type(dec) is cls)
     except Exception as e:  # noqa: BLE001
         out["unpack"] = ("raised", type(e).__name__, "%s: %s" % (type(e).__name__, str(e)[:160]))
+    if own is not None:
+        out["reunpack"] = reunpack(world, defn, cls, own)
     if defn.consts:
         out["members"] = defn.members(cls, inst, dec)
     if inst is not None and not raised(out.get("pack")):
@@ -296,6 +374,9 @@ def run_form(world, defn, form, st):
         except Exception as e:  # noqa: BLE001
             out["again"] = ("raised", type(e).__name__, "%s: %s" % (type(e).__name__, str(e)[:160]))
     return out
+
+
+STAGES = ("class", "construct", "formats", "pack", "unpack", "reunpack", "again", "members")
 
 
 def raised(x):
@@ -321,15 +402,26 @@ def check_state(world, defn, st):
     want = {"construct": canon(defn.flat_norm(st["fields"])), "pack": bytes(st["pbytes"]),
             "unpack": (canon(defn.flat_norm(st["fields"])), len(st["pbytes"]), True),
             "again": (canon(defn.flat_norm(st["fields"])), bytes(st["pbytes"])),
-            "members": tuple((canon(v),) * 3 for v in st.get("cvals", ()))}
-    res = {form: run_form(world, defn, form, st) for form in ("plain", "compiled", "dataclass")
-           if form in defn.forms or form in defn.errors}
+            "members": tuple((canon(v),) * 3 for v in st.get("cvals", ())),
+            "formats": (tuple(st.get("dfmt") or [f["k"] for f in st["def"]]), tuple(defn.names))}
+    res, own = {}, None
+    for form in ("plain", "compiled", "dataclass"):
+        if form not in defn.forms and form not in defn.errors:
+            continue
+        res[form] = run_form(world, defn, form, st, own)
+        packed = res[form].get("pack")
+        if form == "plain" and isinstance(packed, bytes) and packed != want["pack"]:
+            # the plain form's bytes are not those of the reference codec (a codec matter): decoding the reference
+            # bytes says little then, so every form also decodes what the plain form packed (RoundTripDef)
+            own = packed
+            res[form]["reunpack"] = reunpack(world, defn, defn.forms[form], own)
+            want["reunpack"] = (want["construct"], len(own), True)
     n_cmp, probs, codec_notes = 0, [], []
     ref = res.get("plain", {})
     for form, out in res.items():
         if form == "plain":
             continue
-        for stage in ("class", "construct", "pack", "unpack", "again", "members"):
+        for stage in STAGES:
             if stage not in out and stage not in ref:
                 continue
             n_cmp += 1
@@ -340,8 +432,8 @@ def check_state(world, defn, st):
                 probs.append((form, stage, key, "%s form: %s %s, plain form %s" % (
                     form, stage, describe(b) if b is not None else "not reached", describe(a) if a is not None else "not reached")))
                 break
-    for stage in ("class", "construct", "pack", "unpack", "again", "members"):
-        if stage in ("again", "members") and stage not in ref:
+    for stage in STAGES:
+        if stage in ("again", "members", "reunpack", "formats") and stage not in ref:
             continue
         if stage == "members":                # (as many observations per member as there were instances to look at)
             want[stage] = tuple(w[:len(g)] for w, g in zip(want[stage], ref[stage])) + want[stage][len(ref[stage]):]
@@ -362,6 +454,9 @@ def check_state(world, defn, st):
         if stage == "again" and not raised(got) and got[0] == want[stage][0]:
             codec_notes.append("second packing of %s: %s, reference codec %s" % ([f["k"] for f in st["def"]], describe(got[1]), describe(want[stage][1])))
             continue
+        if stage == "formats":
+            probs.append(("plain", stage, "differs", "plain form holds formats / names %s, definition means %s" % (describe(got), describe(want[stage]))))
+            break
         if stage in ("construct", "again"):
             probs.append(("plain", stage, got[1] if raised(got) else "differs",
                           "plain form after a %s call: %s, definition means %s" % (st["style"], describe(got), describe(want[stage]))))
@@ -399,7 +494,7 @@ def tlc_simulate(cfg, num, seed):
     tmp = scratch_dir("c20s-")
     try:
         r = run_tlc("PayloadDef.tla", cfg, coverage=False, workers=1, java_opts=JAVA_OPTS,
-                    simulate="file=%s,num=%d" % (os.path.join(tmp, "b"), num), depth=16, seed=seed)
+                    simulate="file=%s,num=%d" % (os.path.join(tmp, "b"), num), depth=20, seed=seed)
         if not r.ok:
             raise MachineryError("PayloadDef.tla %s (simulation): %s" % (cfg, r.violated))
         m = re.search(r"The number of states generated: (\d+)", r.output)
@@ -416,8 +511,24 @@ def tlc_simulate(cfg, num, seed):
         shutil.rmtree(tmp, ignore_errors=True)
 
 
+def ann_key(f):
+    a = f.get("ann") or canon_ann(f["k"])
+    return (a["c"], a["b"], a["f"], bool(a["s"]))
+
+
 def def_key(df):
-    return tuple((f["k"], f["d"], f["h"]) for f in df)
+    return tuple((f["k"], f["d"], f["h"], ann_key(f)) for f in df)
+
+
+def ann_text(f):
+    c, b, fm, s = ann_key(f)
+    t = CONTAINER[c][1] % ({"format": "type_from_format(%r)" % fm, "payload": "<payload class>"}.get(b, b))
+    return "annotated %s" % (repr(t) if s else t)
+
+
+def free_ann(f):
+    """the field is annotated otherwise than customary (PayloadDef.tla: Annotate was taken for it)."""
+    return f["k"] != "bits" and ann_key(f) != ann_key({"k": f["k"]})
 
 
 def const_key(consts):
@@ -491,14 +602,17 @@ def run_states(ctx, world, states, tag, cache, codec_notes, spec_index=None):
                 codec_notes.setdefault(kinds if len(kinds) < 3 else ("...",), n)
             for form, aspect, k, detail, who in probs:
                 kinds = "+".join(sorted({f["k"] for f in st["def"] if f["d"]}))
-                shape = [(f["k"], "default" if f["d"] else "", "rules" if f["h"] else "") for f in st["def"]]
+                shape = [(f["k"], "default" if f["d"] else "", "rules" if f["h"] else "") + ((ann_text(f),) if free_ann(f) else ())
+                         for f in st["def"]]
+                annotated = any(free_ann(f) for f in st["def"])
                 consts = st.get("consts", ())
                 members = "" if not consts else " with non-field members %s" % [
                     "%s (%s, %s, after %d fields)" % (MEMBERS[c["ck"]][0], {"bare": "plain assignment", "classvar": "ClassVar annotation",
                                                       "subscript": "class header"}[c["sty"]], "subclass" if c["sub"] else "class", c["pos"])
                     for c in consts]
-                ctx.violation("def:%s:%s:%s%s%s%s" % (form, aspect, k, (":derived-" + order) if split else "", who,
-                                                      ":members-" + "+".join(sorted({c["sty"] for c in consts})) if consts else ""),
+                ctx.violation("def:%s:%s:%s%s%s%s%s" % (form, aspect, k, (":derived-" + order) if split else "", who,
+                                                        ":members-" + "+".join(sorted({c["sty"] for c in consts})) if consts else "",
+                                                        ":annotated" if annotated and form == "dataclass" else ""),
                               "definition %s%s, %s call: %s%s" % (
                                   shape if not split else "%s extended by subclass fields %s (%s)" % (shape[:split], shape[split:], order),
                                   members, st["style"], detail, (" [kinds with defaults: %s]" % kinds) if kinds else ""),
@@ -569,7 +683,7 @@ def member_controls(ctx, world, states):
     mixed.forms["dataclass"] = Definition(world, st["def"], consts=st["consts"], sabotage="const-field").forms["dataclass"]
     _, p_field, _ = check_state(world, mixed, st)
     ctx.control("a dataclass form that puts a ClassVar-annotated constant on the wire is flagged",
-                any(p[0] == "dataclass" and p[1] in ("construct", "pack", "unpack") for p in p_field))
+                any(p[0] == "dataclass" and p[1] in ("construct", "formats", "pack", "unpack") for p in p_field))
     lost = Definition(world, st["def"], consts=st["consts"])
     setattr(lost.forms["compiled"], MEMBERS["int"][0], 0)
     _, p_lost, _ = check_state(world, lost, st)
@@ -582,6 +696,28 @@ def member_controls(ctx, world, states):
     _, p_over, _ = check_state(world, good, sto)
     ctx.control("a plain subclass that shows the base class's value of an overridden member is flagged against cvals",
                 any(p[0] == "plain" and p[1] == "members" for p in p_over))
+
+
+def annotation_controls(ctx, world, states):
+    """a dataclass form whose annotation means another format than the definition's must be flagged."""
+    for text in (False, True):
+        st = next(s for s in states if not s["split"] and len(s["def"]) == 1 and s["def"][0]["k"] == "arrayH-?"
+                  and ann_key(s["def"][0])[:2] == ("tuple", "bool") and ann_key(s["def"][0])[3] == text and s["style"] == "positional")
+        mixed = Definition(world, st["def"])
+        mixed.forms["dataclass"] = Definition(world, st["def"], sabotage="elem-int").forms["dataclass"]
+        _, p_ann, _ = check_state(world, mixed, st)
+        ctx.control("a dataclass form that sends a sequence of bool%s as a sequence of int is flagged against dfmt"
+                    % (" (annotation written as a string)" if text else ""),
+                    any(p[0] == "dataclass" and p[1] == "formats" for p in p_ann))
+    # bytes alone decide as well: the same class, with the format list it holds hidden from the observation
+    st = next(s for s in states if not s["split"] and len(s["def"]) == 1 and s["def"][0]["k"] == "arrayH-?" and s["style"] == "positional"
+              and len(s["fields"][0]) > 1 and ann_key(s["def"][0])[0] and ann_key(s["def"][0])[1] == "bool")
+    blind = Definition(world, st["def"])
+    blind.forms["dataclass"] = Definition(world, st["def"], sabotage="elem-int").forms["dataclass"]
+    blind.formats = lambda cls: ((), ())
+    _, p_blind, _ = check_state(world, blind, st)
+    ctx.control("the same form is flagged by its bytes / decoded values when its format list is not looked at",
+                any(p[0] == "dataclass" and p[1] in ("pack", "unpack", "reunpack") for p in p_blind))
 
 
 def run(tier, seed, replay=None):
@@ -599,13 +735,19 @@ def run(tier, seed, replay=None):
                        "(constants bare / ClassVar-annotated, helper method, message id bare / ClassVar / in the class header) "
                        "before, between and after the fields, in the base class and overriding in the subclass: exhaustive for "
                        "one member (and base+override pairs) over definitions of <= 2 fields, up to 3 members in the simulated "
-                       "long definitions; each member's value on class / constructed / decoded instance is compared with cvals")
+                       "long definitions; each member's value on class / constructed / decoded instance is compared with cvals.  "
+                       "The dataclass form writes for every field the annotation TLC chose (native type / format type variable / "
+                       "payload class, alone or in list[], tuple[, ...], typing.List[], typing.Tuple[, ...], as object or as "
+                       "string): all annotations that mean the field's format exhaustively for single-field definitions, "
+                       "randomly per field in the simulated ones; the format list the class holds after use is compared with dfmt")
     ctx.assumptions += ["field names are generated identifiers (f1, f2_0 ...); names that collide with Python keywords or with "
                         "the attributes of the payload classes are outside the explored space",
                         "default values are immutable literals / instances of the field's type; dataclass default_factory "
                         "is outside the explored space",
                         "non-field members are class constants, helper methods and the message id; dataclasses.InitVar "
                         "pseudo-fields, init=False / kw_only fields have no plain counterpart and are outside the explored space",
+                        "annotations outside the documented mapping (set[T], Optional, int/bool subclasses such as IntEnum, a "
+                        "format type variable as the element of a sequence) have no stated meaning and are outside the explored space",
                         "the reference codec Wire.tla (checked by C02) supplies the bytes of each field"]
     world = World(seed)
     rng = random.Random(seed)
@@ -620,7 +762,7 @@ def run(tier, seed, replay=None):
             st = canon(rp["state"])
             st["def"] = tuple(st["def"])
             st.setdefault("split", 0)
-            for k_ in ("consts", "cvals", "bcvals"):
+            for k_ in ("consts", "cvals", "bcvals", "dfmt"):
                 st[k_] = tuple(st.get(k_, ()))
             n = run_states(ctx, world, [st], "replay", cache, {})
             ctx.sample({"replayed_definition": plain(st["def"])})
@@ -669,8 +811,20 @@ def run(tier, seed, replay=None):
         n_der = len({(def_key(s_["def"]), s_["split"], const_key(s_["consts"])) for s_ in states if s_["split"]})
         cstates = [s_ for s_ in states if s_["consts"]]         # definitions whose class bodies hold non-field members
         n_add = len({(def_key(s_["def"]), s_["split"], const_key(s_["consts"])) for s_ in cstates})
-        n_fld = r.distinct - len(states) - n_der - n_add
-        r.coverage = {"AddField": (n_fld, n_fld), "Derive": (n_der, n_der), "AddConst": (n_add, n_add), "Call": (len(states), len(states))}
+        astates = [s_ for s_ in states if any(free_ann(f_) for f_ in s_["def"])]     # fields annotated otherwise than customary
+        n_ann = len({def_key(s_["def"]) for s_ in astates})
+        n_fld = r.distinct - len(states) - n_der - n_add - n_ann
+        r.coverage = {"AddField": (n_fld, n_fld), "Derive": (n_der, n_der), "AddConst": (n_add, n_add), "Annotate": (n_ann, n_ann),
+                      "Call": (len(states), len(states))}
+        seen_ann = {(ann_key(f_)[0], ann_key(f_)[1], ann_key(f_)[3]) for s_ in states for f_ in s_["def"] if f_["k"] != "bits"}
+        need_ann = {(c_, b_, s_) for c_ in CONTAINER for b_ in list(NATIVE) + ["payload"] for s_ in (False, True)
+                    if not c_ or b_ in ("bool", "int", "float", "payload")}    # (sequences of the other types mean no registered format)
+        need_ann |= {("", "format", False), ("", "format", True)}
+        if need_ann - seen_ann or any(not s_["dfmt"] for s_ in astates):
+            raise MachineryError("TLC did not enumerate the annotation language: missing %s" % sorted(need_ann - seen_ann))
+        for s_ in astates[len(astates) // 2:][:1]:
+            ctx.sample({"definition": [(f_["k"], f_["d"], f_["h"]) for f_ in s_["def"]], "annotations": [ann_text(f_) for f_ in s_["def"]],
+                        "dataclass_formats_by_TLC": list(s_["dfmt"]), "call": s_["style"], "bytes_by_TLC": bytes(s_["pbytes"]).hex()})
         ctx.add_tlc("exhaustive", r)
         spec_index = {(def_key(s_["def"]), s_["style"]): s_ for s_ in states if not s_["split"] and not s_["consts"]}
         n_cmp = run_states(ctx, world, states, "exhaustive", cache, codec_notes, spec_index)
@@ -688,6 +842,8 @@ def run(tier, seed, replay=None):
                     "DefaultsUsed" in reported)
         ctx.control("specification in which a ClassVar-annotated class constant is taken for one more field violates ConstsOffWire",
                     "ConstsOffWire" in reported)
+        ctx.control("specification in which a sequence annotation takes bool for an int (element test by subclass) violates AnnotationsMean",
+                    "AnnotationsMean" in reported)
         longest = 0
         for i, f in enumerate(f_sim):
             rs, sim_states = f.result()
@@ -741,6 +897,7 @@ def run(tier, seed, replay=None):
         ctx.control(name, fired)
     sabotage_control(ctx, world, states)
     member_controls(ctx, world, cstates)
+    annotation_controls(ctx, world, astates)
     ctx.cov.update({"programs": len(cache) + len(keys), "disagreements_checked": n_cmp, "exhaustive": False})
     ctx.note("exhaustive_part", "all definitions with at most %d fields over the 13 kinds (defaults as a suffix, at most one "
              "field with custom rules) x calling conventions were enumerated completely; longer ones are drawn by TLC's "
